@@ -257,7 +257,11 @@ def r7d(prog, rep):
         return
     for c, org in hdr:
         k = 'portfolio::io::tx_csv::parse_tx_csv|header-normalised'
-        missing = [n for n, pat in (('to_lowercase', r'str>::to_lowercase$|::to_lowercase$|to_ascii_lowercase$'), ('trim', r'str>::trim$|::trim$')) if not org.has_call(pat)]
+        # the normalisation may sit in a closure handed to an adaptor on the way (`headers.iter().map(|c| c.trim().to_lowercase())`)
+        closure_calls = [x for kind in org.aggs if kind.startswith('closure:')
+                         for g2 in [prog.by_crate[p.crate].get(kind[len('closure:'):])] if g2 is not None for x in g2.calls]
+        missing = [n for n, pat in (('to_lowercase', r'str>::to_lowercase$|::to_lowercase$|to_ascii_lowercase$'), ('trim', r'str>::trim$|::trim$'))
+                   if not org.has_call(pat) and not any(re.search(pat, x.callee) for x in closure_calls)]
         if missing:
             rep.violation('R7d', k, where=c.where(), fn=p.name,
                           detail='a header cell is looked up without %s: header case / padding would change which columns are recognised' % ' and '.join(missing))
